@@ -612,4 +612,26 @@ theorem instanceLabel_valid (vn sm : List Char) (h1 : vn ≠ []) (h2 : vn.length
     exact isHex_ne_space (hs.2 c hc) h
 
 
+theorem collapseDashes_head (l : List Char) : (collapseDashes l).head? = l.head? := by
+  cases l with
+  | nil => rfl
+  | cons c cs =>
+    unfold collapseDashes collapseDashesAux
+    by_cases h : c = DASH
+    · simp [h]
+    · simp [h]
+
+theorem validHostNameLegacy_head (d : List Char) : (validHostNameLegacy d).head? ≠ some DASH := by
+  unfold validHostNameLegacy
+  rw [collapseDashes_head]
+  intro h
+  have := stripBoth_head isDash _ DASH h
+  simp [isDash] at this
+
+theorem validNameLegacy_head (d : List Char) : (validNameLegacy d).head? ≠ some SPACE := by
+  unfold validNameLegacy stripSpaceDash
+  intro h
+  have := stripBoth_head isSpaceDash _ SPACE h
+  simp [isSpaceDash] at this
+
 end Hap.Advert
